@@ -167,6 +167,12 @@ def run_impl(case):
                 return a
     o = observe(f)
     if o["kind"] == "ok":
+        if k == "cast" and o["value"] is not a and len(case["arr"]["values"]) % 2 == 0:
+            # what the owner does with the source after the cast does not reach the replica
+            try:
+                a.values[...] = -777
+            except Exception:  # noqa
+                pass
         o["value"] = observe_array(o["value"], snap=(k == "shares"))
     return o
 
